@@ -188,6 +188,36 @@ theorem c11_sort_merge (recs : List (Nat × Nat)) :
   rw [h3 x, samRecordAll_count]
   simp [valsCount]
 
+/-- **Count conservation over `add_value` calls.** Any sequence of `add_value` calls, each of whose
+values writes *any list* of observations in one `metric()` call — `Unsigned`, `Floating`, `Repeated`
+in any mix and order, empty repeats (`occurrences = 0`) at any position, any bit patterns — whatever the
+two float conversions return: the closed histogram's occurrences add up to the number of observations
+the list stands for (`Repeated{_, n}` counts `n`), provided that number is below `2^64`. In particular
+an empty repeat costs nothing and hides nothing that follows it. -/
+theorem c11_add_value_conserved (ops : CaptureOps) (calls : List (List Obs))
+    (h : (calls.flatten.map Obs.count).sum < 2 ^ 64) :
+    ((drainMid aggParams (addValues ops aggParams (emptyBuckets aggCfg) calls)).map (·.2)).sum
+      = (calls.flatten.map Obs.count).sum := by
+  rw [addValues_eq, ← countSum_flatMap_captureAll ops calls]
+  exact (c11_count_conserved _ (by rw [countSum_flatMap_captureAll]; exact h)).1
+
+/-- **Sort-and-merge over `add_value` calls**: as `c11_sort_merge`, for observation lists: the rows are
+strictly ascending, NaN-free, positive, and for every non-NaN value the reported occurrences are the
+sum of the counts of all captured observations of that value, in every call and at every position. -/
+theorem c11_add_value_sort_merge (ops : CaptureOps) (calls : List (List Obs)) :
+    (samDrain (samAddValues ops [] calls)).Pairwise (fun a b => samLt a.1 b.1) ∧
+      (∀ r ∈ samDrain (samAddValues ops [] calls), f64IsNaN r.1 = false ∧ 0 < r.2) ∧
+      (∀ x : Int, rowsCount (some x) (samDrain (samAddValues ops [] calls)) =
+        (((calls.flatMap (captureAll ops)).filter fun r => samKey r.1 == some x).map (·.2)).sum) := by
+  rw [samAddValues_eq]
+  exact c11_sort_merge _
+
+/-- a single call: the capturer's loop records exactly the captured observations in order
+(`addValue` is the fold of the one-observation step) -/
+theorem c11_add_value_is_fold (ops : CaptureOps) (bs : List Nat) (obs : List Obs) :
+    addValue ops aggParams bs obs = recordAll aggParams bs (captureAll ops obs) :=
+  addValue_eq ops aggParams bs obs
+
 /-! ## Non-vacuity: concrete inputs meeting the hypotheses -/
 
 -- bucket of the scaled value 1000 (0.9765625): index 111, range 992..1023, midpoint 1007
@@ -219,6 +249,17 @@ example : samLt 0 0x3ff0000000000000 ∧ samLt 0x3ff0000000000000 0x400000000000
   refine ⟨⟨by decide +kernel, by decide +kernel⟩, ⟨by decide +kernel, by decide +kernel⟩, by decide +kernel,
     by decide +kernel, by decide +kernel⟩
 
+-- one `add_value` call writing [Unsigned 5, Repeated{0, 0}, Unsigned 7, Repeated{_, 3}] (conversions
+-- stubbed: `5 as f64` ↦ bits of 5.0 …): the real loop conserves all 5 observations; the early-return
+-- variant (an empty repeat `return`s instead of being skipped) keeps only the first one
+example :
+    let ops : CaptureOps := ⟨fun v => if v = 5 then 0x4014000000000000 else 0x401c000000000000, fun _ _ => 0x3ff0000000000000⟩
+    let call : List Obs := [.unsigned 5, .repeated 0 0, .unsigned 7, .repeated 0x4008000000000000 3]
+    ((drainMid aggParams (addValue ops aggParams (emptyBuckets aggCfg) call)).map (·.2)).sum = 5 ∧
+    (call.map Obs.count).sum = 5 ∧
+    ((drainMid aggParams (addValueEarlyReturn ops aggParams (emptyBuckets aggCfg) call)).map (·.2)).sum = 1 := by
+  decide +kernel
+
 end Histogram
 
 #print axioms Histogram.c11_generated_constants
@@ -235,3 +276,6 @@ end Histogram
 #print axioms Histogram.c11_midpoint_index
 #print axioms Histogram.c11_reaggregate_fixed
 #print axioms Histogram.c11_sort_merge
+#print axioms Histogram.c11_add_value_conserved
+#print axioms Histogram.c11_add_value_sort_merge
+#print axioms Histogram.c11_add_value_is_fold
